@@ -33,6 +33,7 @@ def run(ctx):
     _run_main(ctx)
     _shared_r4(ctx)
     _shared_r5(ctx)
+    _round6(ctx)
 
 
 def _run_main(ctx):
@@ -147,3 +148,12 @@ def _shared_r5(ctx):
     from rules import arms as A
     with ctx.rule('R02.7', 'body frames are cut to the frame_max both sides agreed on: the lower of the two, 0 meaning no limit (shared with C15)', floor=1) as r:
         A.include(ctx, r, 'c15', 'R15.1', pick=('frame_max', 'ok-row'))
+
+
+def _round6(ctx):
+    """Rules that are necessary conditions of this property too (found by seeding round 6)."""
+    from rules import arms as A
+    with ctx.rule('R02.8', 'what was framed reaches the transport exactly once: write-loop bookkeeping, buffer mutators and accessors of the output buffer (shared with C01)', floor=31) as r:
+        A.include(ctx, r, 'c01', 'R01.2')
+        A.include(ctx, r, 'c01', 'R01.3')
+        A.include(ctx, r, 'c01', 'R01.7')
